@@ -350,6 +350,9 @@ class Ctx:
         }
         if "leanchecker" in self.lean:
             cov["leanchecker"] = self.lean["leanchecker"]
+        if getattr(self, "escalated_from_quick", None):
+            cov["escalated_from_quick"] = {"changed_anchor_files": self.escalated_from_quick,
+                                           "note": "quick command, seeded sample found nothing; anchored source differs from tools/srcpins.json"}
         cov.update(extra_cov)
         ev = {"property_id": self.prop, "tier": self.tier, "seed": self.seed, "level": self.level,
               "coverage": cov, "assumptions": self.assumptions, "wall_s": round(time.time() - self.t0, 2),
